@@ -37,8 +37,14 @@ LINK_KINDS = [
 CHILD_FIELDS = {"children", "inlines", "blocks", "items", "rows", "header"}
 
 
+_ABSORBED = set()
+
+
 def scc_key(scc):
-    return "+".join(sorted(set(_CLOS.sub("", d) for d in scc)))
+    """Members of a cycle, closures folded into their fn, helpers that are analysed inlined (vlib/inline.py) folded into their callers."""
+    names = set(_CLOS.sub("", d) for d in scc)
+    kept = set(n for n in names if n not in _ABSORBED)
+    return "+".join(sorted(kept or names))
 
 
 _REC_ADTS = None
@@ -125,6 +131,8 @@ def rule_r2(facts, rep, rid="C03-R2"):
     reach = cg.reachable_from(rts)
     local = [f.def_ for f in facts.fn_list if f.crate in ("liwe", "iwes", "iwe") and f.def_ in reach]
     sccs = cg.sccs(local)
+    _ABSORBED.clear()
+    _ABSORBED.update(f.def_ for f in facts.fn_list if f.absorbed)
     tab = recursion_table()
     n = 0
     seen_keys = set()
